@@ -6,6 +6,7 @@ import (
 	"os"
 	"reflect"
 	"sort"
+	"sync"
 	"testing"
 	"time"
 
@@ -71,11 +72,17 @@ func try(f func()) (p any) {
 	return nil
 }
 
-func decideRT(c rtCase) (*rp.Fail, string, bool) {
+func decideRT(c rtCase) (fail *rp.Fail, key string, nontrivial bool) {
+	zones.With(zones.Loc(c.Zone), func() { fail, key, nontrivial = decideRTNoZone(c) })
+	return
+}
+
+// decideRTNoZone judges the case under the current process zone (safe for concurrent use).
+func decideRTNoZone(c rtCase) (*rp.Fail, string, bool) {
 	var fail *rp.Fail
 	var key string
 	nontrivial := false
-	zones.With(zones.Loc(c.Zone), func() {
+	func() {
 		proto, layout, ok := prototype(c.Kind, c.Code)
 		if !ok {
 			fail = rp.Failf("harness/prototype", "no message type for %s 0x%02x", c.Kind, c.Code)
@@ -214,7 +221,7 @@ func decideRT(c rtCase) (*rp.Fail, string, bool) {
 				return
 			}
 		}
-	})
+	}()
 	return fail, key, nontrivial
 }
 
@@ -480,6 +487,52 @@ func props() []rp.Prop {
 	return []rp.Prop{
 		rp.P[rtCase]{Name: "roundtrip", Checks: ev.Pick(40000, 2000000) / ev.Shards(), Gen: genRT, Sweep: sweepTypesZones, Check: checkRT},
 		rp.P[dispCase]{Name: "dispatch", Sweep: sweepDisp, Check: checkDisp},
+	}
+}
+
+// TestAAAConcurrentRoundTrips: the codec is used from several goroutines at once (shared scratch buffers, memo tables):
+// every goroutine round-trips its own values and must get its own values back.
+func TestAAAConcurrentRoundTrips(t *testing.T) {
+	if ev.Replaying() {
+		t.Skip()
+	}
+	ev.Rapid("concurrent", 1)
+	var cases []rtCase
+	rapid.Check(t, func(rt *rapid.T) {
+		cases = nil
+		for i := 0; i < 64; i++ {
+			c := genRT(rt)
+			c.Zone = "UTC"
+			cases = append(cases, c)
+		}
+	})
+	var wg sync.WaitGroup
+	var mu sync.Mutex
+	var first *rp.Fail
+	var firstCase rtCase
+	var n int64
+	for w := 0; w < 8; w++ {
+		wg.Add(1)
+		go func(w int) {
+			defer wg.Done()
+			for round := 0; round < ev.Pick(40, 400); round++ {
+				for i := w; i < len(cases); i += 8 {
+					f, _, _ := decideRTNoZone(cases[i])
+					mu.Lock()
+					n++
+					if f != nil && first == nil {
+						f.Fingerprint += "/concurrent"
+						first, firstCase = f, cases[i]
+					}
+					mu.Unlock()
+				}
+			}
+		}(w)
+	}
+	wg.Wait()
+	ev.Bulk("concurrent/round-trips-from-8-goroutines", n, n)
+	if first != nil && ev.Failure("roundtrip", first.Fingerprint, "(8 goroutines using the codec at the same time) "+first.Msg, firstCase) {
+		t.Errorf("[%s] %s", first.Fingerprint, first.Msg)
 	}
 }
 
